@@ -28,11 +28,14 @@ def parse_eval_log(msg):
     return None
 
 
-def body_evalobj(E, n, m, with_h, preset, xr=False, scaling=False):
+def body_evalobj(E, n, m, with_h, preset, xr=False, scaling=False, long_x=False):
     log = EvalLog()
     objfun = mk_objfun(E, m, log, xr=xr)
     C, M, ghost, params = mk_controller(E, n, m, n + 1, n + 1, preset=preset, with_h=with_h, with_save=False, objfun=objfun, xr=xr,
                                          scaling=scaling)
+    if long_x:
+        # 'long vector' log format: x is not printed when n reaches logging.n_to_print_whole_x_vector (6 by default; here lowered to n)
+        params.params["logging.n_to_print_whole_x_vector"] = n
     C.do_logging = True
     logged = []
     E.hooks(log=lambda level, msg: logged.append(parse_eval_log(msg)))
@@ -249,6 +252,11 @@ def harnesses(tier, seed):
                                   params=dict(n=n, m=m, with_h=with_h, preset=preset), cfg=cfg, functions=FUNCS,
                                   bounds="n=%d, m=%d, any nx <= nf <= maxfun, 1..3 samples requested" % (n, m), assumptions=common,
                                   expect=['nf-counts-calls', 'logged-eval-numbers-consecutive', 'short-count-means-budget-exhausted'], nproc=1))
+            if not with_h:
+                hs.append(Harness("evaluate_objective[n=%d,m=%d,h=0,default,long-x-log-format]" % (n, m), 'dfverif.checks.c02', 'body_evalobj',
+                                  params=dict(n=n, m=m, with_h=False, preset='default', long_x=True), cfg=cfg, functions=FUNCS,
+                                  bounds="n=%d, m=%d, any nx <= nf <= maxfun, 1..3 samples requested; log lines in the format used for n >= logging.n_to_print_whole_x_vector" % (n, m),
+                                  assumptions=common, expect=['nf-counts-calls', 'logged-eval-numbers-consecutive'], nproc=1))
             hs.append(Harness("evaluate_objective[n=%d,m=%d,h=%d,default,scaling]" % (n, m, with_h), 'dfverif.checks.c02', 'body_evalobj',
                               params=dict(n=n, m=m, with_h=with_h, preset='default', scaling=True), cfg=core.Cfg(qtimeout_ms=20000, uflin=True), functions=FUNCS,
                               bounds="n=%d, m=%d, internal scaling record (lower, upper-lower, upper) symbolic" % (n, m), assumptions=common,
